@@ -132,7 +132,8 @@ Record GInv (s : st) : Prop := mkG {
   g_new_cfg : forall w, In w (workers s) -> isnew (hup_age s) w = true -> w_cfg w = cfgid s /\ w_lsn w = lsn s;
   g_cfg : 0 <= disk_w s /\ 0 <= num s;     (* num s = cfgw s: Proof/ReloadCount.v (it needs a reload to have happened when TTIN / TTOU came first) *)
   g_pc : pc_inv s;
-  g_wpids : NoDup (pids (workers s))
+  g_wpids : NoDup (pids (workers s));
+  g_sigq : forall sg, In sg (sigq s) -> sg = SIGHUP     (* no TTIN / TTOU under way: those schedules are Proof/ReloadSafe.v's *)
 }.
 
 (* pc_inv only reads workers, kids, num, wage, hup_age, next_pid *)
@@ -162,7 +163,7 @@ Qed.
 
 Lemma step_exit_told : forall s p, GInv s -> GInv (step s (ExitTold p)).
 Proof.
-  intros s p [S A H K KB WB NF NC CF PC WP]. simpl. constructor; simpl; auto.
+  intros s p [S A H K KB WB NF NC CF PC WP SQ]. simpl. constructor; simpl; auto.
   - rewrite exit_told_pids. auto.
   - intros k Hk. unfold exit_told_kid in Hk. apply in_map_iff in Hk. destruct Hk as [c [E Hc]].
     destruct ((k_pid c =? p) && negb (k_zomb c) && told c); subst k; simpl; auto.
@@ -174,14 +175,15 @@ Qed.
 
 Lemma step_hup : forall s, GInv s -> GInv (step s Hup).
 Proof.
-  intros s G. simpl. destruct (Z.of_nat (length (sigq s)) <? sig_queue_max); auto.
-  destruct G as [S A H K KB WB NF NC CF PC WP]. constructor; simpl; auto.
+  intros s G. simpl. unfold queue_sig. destruct (Z.of_nat (length (sigq s)) <? sig_queue_max); auto.
+  destruct G as [S A H K KB WB NF NC CF PC WP SQ]. constructor; simpl; auto.
+  intros sg Hsg. apply in_app_or in Hsg. destruct Hsg as [Hsg|[Hsg|[]]]; auto.
 Qed.
 
 Lemma step_edit : forall s w a, GInv s -> GInv (step s (Edit w a)).
 Proof.
   intros s w a G. simpl. destruct (0 <=? w) eqn:E; auto. apply Z.leb_le in E.
-  destruct G as [S A H K KB WB NF NC [C2 C3] PC WP]. constructor; simpl; auto.
+  destruct G as [S A H K KB WB NF NC [C2 C3] PC WP SQ]. constructor; simpl; auto.
 Qed.
 
 Lemma nodup_pids_remove : forall p l, NoDup (pids l) -> NoDup (pids (remove_wk p l)).
@@ -206,7 +208,7 @@ Proof. intros ks p [k [Hk F]]. destruct (fitk_pid _ _ F) as [P _]. rewrite <- P.
 Lemma reap_one : forall s z rest, first_zombie (kids s) = Some (z, rest) -> GInv s ->
   GInv (set_workers (set_kids s rest) (remove_wk (k_pid z) (workers s))).
 Proof.
-  intros s z rest F [S A H K KB WB NF NC CF PC WP].
+  intros s z rest F [S A H K KB WB NF NC CF PC WP SQ].
   destruct (first_zombie_spec _ _ _ F) as [Z [l1 [l2 [E1 E2]]]].
   rewrite E1 in K. destruct (NoDup_map_remove _ _ _ K) as [K1 K2]. rewrite <- E2 in K1, K2.
   assert (Sub : forall k, In k rest -> In k (kids s)).
@@ -278,7 +280,7 @@ Qed.
 Lemma fork_step : forall s age n, GInv s -> cur s = PFork age (KReload n) ->
   GInv (set_pc (set_fork s (kids s ++ [mkKid (next_pid s) false 0 []]) (next_pid s + 1)) (PRegister (next_pid s) age (KReload n))).
 Proof.
-  intros s age n [S A H K KB WB NF NC CF PC WP] E. unfold pc_inv in PC. rewrite E in PC. destruct PC as [P1 [P2 [P3 P4]]].
+  intros s age n [S A H K KB WB NF NC CF PC WP SQ] E. unfold pc_inv in PC. rewrite E in PC. destruct PC as [P1 [P2 [P3 P4]]].
   constructor; simpl; auto.
   - rewrite map_app. simpl. apply NoDup_app_one; auto. intros Q. apply in_map_iff in Q. destruct Q as [k [Ek Hk]].
     pose proof (KB k Hk). lia.
@@ -297,7 +299,7 @@ Proof. intros. rewrite filter_app. simpl. destruct (f x); reflexivity. Qed.
 Lemma register_step : forall s p age n, GInv s -> cur s = PRegister p age (KReload n) ->
   GInv (after_register (set_workers s (workers s ++ [mkWk p age (cfgid s) (lsn s)])) (KReload n)).
 Proof.
-  intros s p age n [S A H K KB WB NF NC CF PC WP] E. unfold pc_inv in PC. rewrite E in PC.
+  intros s p age n [S A H K KB WB NF NC CF PC WP SQ] E. unfold pc_inv in PC. rewrite E in PC.
   destruct PC as [P1 [P2 [P3 [P4 [P5 [P6 P7]]]]]].
   set (nw := mkWk p age (cfgid s) (lsn s)).
   assert (New : isnew (hup_age s) nw = true) by (unfold isnew; simpl; apply Z.ltb_lt; auto).
@@ -329,7 +331,7 @@ Qed.
 Lemma reload_step : forall s q, GInv s -> cur s = PSigq -> sigq s = SIGHUP :: q ->
   GInv (dispatch (set_sigq s q) SIGHUP).
 Proof.
-  intros s q [So A H K KB WB NF NC [C2 C3] PC WP] E Q.
+  intros s q [So A H K KB WB NF NC [C2 C3] PC WP SQ] E Q.
   unfold dispatch. rewrite Z.eqb_refl.
   assert (NoNew : filter (isnew (wage s)) (workers s) = []) by (apply no_new_after_hup; auto).
   assert (Vac : forall w, In w (workers s) -> isnew (wage s) w = true -> False).
@@ -341,6 +343,7 @@ Proof.
     + intros w Hw Hn. exfalso. eauto.
     + intros w Hw Hn. exfalso. eauto.
     + unfold pc_inv. simpl. unfold cnew. simpl. rewrite NoNew. simpl. lia.
+    + intros sg Hsg. apply SQ. rewrite Q. right. exact Hsg.
   - assert (disk_w s = Z.of_nat (S n)) by lia.
     unfold begin_spawn. simpl. constructor; simpl; auto; try lia.
     + intros w Hw. pose proof (A w Hw). lia.
@@ -348,6 +351,7 @@ Proof.
     + intros w Hw Hn. exfalso. eauto.
     + unfold pc_inv. simpl. unfold cnew. simpl. rewrite NoNew. simpl. repeat split; try lia.
       intros w Hw. pose proof (A w Hw). lia.
+    + intros sg Hsg. apply SQ. rewrite Q. right. exact Hsg.
 Qed.
 
 Lemma pids_filter_in : forall (f : wk -> bool) l w, In w l -> f w = true -> In (w_pid w) (pids (filter f l)).
@@ -356,7 +360,7 @@ Proof. intros. unfold pids. apply in_map. apply filter_In. auto. Qed.
 Lemma sort_step : forall s, GInv s -> cur s = PManageSort ->
   GInv (manage_kill_next s (pids (firstn (Z.to_nat (wlen s - num s)) (sort_by_age (workers s))))).
 Proof.
-  intros s G E. pose proof G as [S A H K KB WB NF NC CF PC WP]. unfold pc_inv in PC. rewrite E in PC.
+  intros s G E. pose proof G as [S A H K KB WB NF NC CF PC WP SQ]. unfold pc_inv in PC. rewrite E in PC.
   rewrite olds_are_prefix by auto.
   assert (F1 : forall w, In w (workers s) -> isold (hup_age s) w = true -> In (w_pid w) (pids (filter (isold (hup_age s)) (workers s)))).
   { intros w Hw Ho. apply pids_filter_in; auto. }
@@ -391,7 +395,7 @@ Qed.
 Lemma kill_step : forall s p v, GInv s -> cur s = PManageKill (p :: v) ->
   GInv (manage_kill_next (kill_worker s p SIGTERM) v).
 Proof.
-  intros s p v G E. pose proof G as [S A H K KB WB NF NC CF PC WP]. unfold pc_inv in PC. rewrite E in PC.
+  intros s p v G E. pose proof G as [S A H K KB WB NF NC CF PC WP SQ]. unfold pc_inv in PC. rewrite E in PC.
   destruct PC as [P1 [P2 P3]].
   assert (NewNe : forall w, In w (workers s) -> isnew (hup_age s) w = true -> w_pid w <> p).
   { intros w Hw Hn Q. apply (P3 w Hw Hn). rewrite Q. simpl. auto. }
@@ -447,22 +451,21 @@ Proof.
 Qed.
 
 Lemma ginv_set_pc : forall s p', GInv s -> pc_inv (set_pc s p') -> GInv (set_pc s p').
-Proof. intros s p' [So A H K KB WB NF NC CF PC WP] P. constructor; simpl; auto. Qed.
+Proof. intros s p' [So A H K KB WB NF NC CF PC WP SQ] P. constructor; simpl; auto. Qed.
 
-Lemma ginv_set_sigq : forall s q, GInv s -> GInv (set_sigq s q).
-Proof. intros s q [So A H K KB WB NF NC CF PC WP]. constructor; simpl; auto. Qed.
+Lemma ginv_set_sigq : forall s q, (forall sg, In sg q -> sg = SIGHUP) -> GInv s -> GInv (set_sigq s q).
+Proof. intros s q Hq [So A H K KB WB NF NC CF PC WP SQ]. constructor; simpl; auto. Qed.
 
 Lemma master_ginv : forall s, GInv s -> GInv (master s).
 Proof.
-  intros s G. pose proof G as [So A H K KB WB NF NC CF PC WP]. unfold master. unfold pc_inv in PC.
+  intros s G. pose proof G as [So A H K KB WB NF NC CF PC WP SQ]. unfold master. unfold pc_inv in PC.
   destruct (cur s) eqn:E.
   - (* PSigq *)
     destruct (sigq s) as [|sg q] eqn:Q.
     + apply ginv_set_pc; auto; unfold pc_inv; simpl; exact PC.
     + destruct (sg =? SIGHUP) eqn:Hs.
       * apply Z.eqb_eq in Hs. subst sg. apply reload_step; auto.
-      * unfold dispatch. rewrite Hs. unfold to_loop. apply ginv_set_pc; [apply ginv_set_sigq; auto|].
-        unfold pc_inv. simpl. exact PC.
+      * exfalso. rewrite (SQ sg (or_introl eq_refl)) in Hs. rewrite Z.eqb_refl in Hs. discriminate.
   - apply ginv_set_pc; auto; unfold pc_inv; simpl; tauto.
   - destruct (wlen s <? num s); apply ginv_set_pc; auto; unfold pc_inv; simpl; exact PC.
   - destruct (num s - wlen s <=? 0) eqn:N.
@@ -483,6 +486,7 @@ Fixpoint told_only (ls : list label) : bool :=
   match ls with
   | [] => true
   | Exit _ _ :: _ => false
+  | Ttin :: _ | Ttou :: _ => false      (* the pool is not resized while reloads are under way: Proof/ReloadSafe.v has those *)
   | _ :: t => told_only t
   end.
 
@@ -568,6 +572,7 @@ Proof.
     + intros w Hw Ho. destruct (boot_workers_spec _ _ _ Hw) as [k [Hk E]]. subst w. unfold isold, isnew in Ho. cbn -[Z.add Z.of_nat Z.ltb Z.leb] in Ho.
       apply negb_true_iff in Ho. apply Z.ltb_ge in Ho. lia.
   - apply boot_pids_nodup.
+  - intros sg [].
 Qed.
 
 Lemma init_ginv : forall n a, GInv (init n a).
